@@ -143,6 +143,10 @@ pub fn run(id: &'static str, tier: Tier, seed: u64, replay: Option<&str>) -> i32
                 *t.counters.entry("wl.mass_retirement_workload".to_string()).or_insert(0) += 1;
                 *t.counters.entry("wl.mass_retirement_images".to_string()).or_insert(0) += st.images;
             }
+            if case.keys.first().is_some_and(|k| k.starts_with(b"end-")) {
+                *t.counters.entry("wl.device_end_workload".to_string()).or_insert(0) += 1;
+                *t.counters.entry("wl.device_end_images".to_string()).or_insert(0) += st.images;
+            }
             for (k, v) in &run.stats.events {
                 *t.counters.entry(format!("wl.{k}")).or_insert(0) += v;
             }
@@ -169,7 +173,11 @@ pub fn run(id: &'static str, tier: Tier, seed: u64, replay: Option<&str>) -> i32
     // one workload in ten works on 2-3 keys with values of 200-600 blocks on a 2400-block device:
     // extents beyond one retirement write (256 blocks), multi-write marker chains, long replays
     let big = crate::ops::wide_extent_strategy(vec![1, 2, 3, 3]);
-    let strategy = if id == "C04" { proptest::strategy::Union::new_weighted(vec![(6, case_strategy(&b)), (1, big)]).boxed() } else { proptest::strategy::Union::new_weighted(vec![(70, case_strategy(&b)), (20, wide), (10, big), (3, crate::ops::mass_delete_strategy())]).boxed() };
+    // one workload in twelve fills a small device to its very last block: transactions whose
+    // extent ends exactly at the end of the device, torn multi-block writes there
+    let end = crate::ops::device_end_strategy(vec![1, 2, 3, 3]);
+    let strategy = if id == "C04" { proptest::strategy::Union::new_weighted(vec![(6, case_strategy(&b)), (1, big), (1, end)]).boxed() } else { proptest::strategy::Union::new_weighted(vec![(70, case_strategy(&b)), (20, wide), (10, big), (3, crate::ops::mass_delete_strategy()), (9, end)]).boxed() };
+    let strategy = if std::env::var("FXV_ONLY_END").is_ok() { crate::ops::device_end_strategy(vec![1, 2, 3, 3]) } else { strategy };
     let mut found = run_lanes(strategy, cases, tier.pick(40, 80), seed, env::threads(), check);
     env::wait_reaper();
     // C04 only: images synthesised with the codec to force every repair kind (duplicates in both
